@@ -128,7 +128,7 @@ Definition d3 (r : N) : list N := [48 + r / 100; 48 + (r / 10) mod 10; 48 + r mo
 
 (* one function record as dump_chrome_task_rstack prints it *)
 Record cevt := { e_begin : bool; e_pid : N; e_tid : option N; e_name : list N; e_time : N;
-                 e_arg : option (list N) }.
+                 e_arg : option (list argv) }.
 Definition s_ts : list N := [123; 34; 116; 115; 34; 58].                                   (* {'ts': *)
 Definition s_ph (b : bool) : list N := [44; 34; 112; 104; 34; 58; 34; (if b then 66 else 69); 34;
                                         44; 34; 112; 105; 100; 34; 58].                   (* ,'ph':'B','pid': *)
@@ -143,7 +143,7 @@ Definition evt_text (e : cevt) : list N :=
   ++ match e_tid e with Some t => s_tid ++ dec t | None => [] end
   ++ s_name ++ escape_bounded 2047 (e_name e)
   ++ match e_arg e with
-     | Some raw => (if e_begin e then s_arguments else s_retval) ++ arg_json (e_begin e) raw ++ [34; 125; 125]
+     | Some a => (if e_begin e then s_arguments else s_retval) ++ args_text (e_begin e) a ++ [34; 125; 125]
      | None => [34; 125]
      end.
 
@@ -193,7 +193,7 @@ Definition chrome_doc (fixed : bool) (comms : list (N * list N)) (evts : list ce
   ++ s_foot4.
 
 (* the function records of a stream as events, then the closing events (cf. chrome_events) *)
-Definition mk_cevt (tasks : list (N * N)) (tid : N) (b : bool) (x : name) (t : N) (a : option (list N)) : cevt :=
+Definition mk_cevt (tasks : list (N * N)) (tid : N) (b : bool) (x : name) (t : N) (a : option (list argv)) : cevt :=
   let pid := match find (fun p => fst p =? tid) tasks with Some (_, p) => p | None => tid end in
   {| e_begin := b; e_pid := pid; e_tid := (if pid =? tid then None else Some tid); e_name := x; e_time := t; e_arg := a |}.
 Fixpoint chrome_close_raw (tasks : list (N * N)) (tid last : N) (st : list frame) : list cevt :=
@@ -202,9 +202,9 @@ Fixpoint chrome_close_raw (tasks : list (N * N)) (tid last : N) (st : list frame
   | f :: rest => if last <? f_start f then chrome_close_raw tasks tid last rest
                  else mk_cevt tasks tid false (f_name f) last None :: chrome_close_raw tasks tid last rest
   end.
-Definition chrome_evts (tasks : list (N * N)) (s : stream) (args : list (option (list N))) : list cevt :=
+Definition chrome_evts (tasks : list (N * N)) (s : stream) (args : list (option (list argv))) : list cevt :=
   let m := fold_left (step 0) s (m_init []) in
-  map (fun ra : (N * ev) * option (list N) =>
+  map (fun ra : (N * ev) * option (list argv) =>
          let '((tid, e), a) := ra in
          match e with Ent x t => mk_cevt tasks tid true x t a | Ext x t => mk_cevt tasks tid false x t a end)
       (combine s (args ++ repeat None (length s - length args)))
